@@ -20,6 +20,8 @@ CFGS = [
     {"mem": "skiplist", "vlog": True, "buckets": 3, "vlogsize": 1 << 20, "vallen": 64},
     {"mem": "art", "vlog": True, "buckets": 1, "vlogsize": 1 << 20, "vallen": 33},
     {"mem": "skiplist", "vlog": True, "buckets": 4, "hot": 2, "vlogsize": 2048, "vallen": 100},   # keys move from cold to hot buckets
+    {"mem": "art", "vlog": True, "buckets": 3, "vlogsize": 512, "vallen": 200},        # a new value-log file every 2-3 records
+    {"mem": "skiplist", "vlog": True, "buckets": 1, "vlogsize": 512, "vallen": 300},   # a new value-log file every record or two
 ]
 
 
@@ -31,7 +33,7 @@ BOTTOM = 6  # utils.MaxLevelNum - 1: the level small databases compact into by d
 VMAPS = [[1, 2, 3], [3, 261, 70000], [255, 256, 257], [65535, 65536, 65537]]
 
 
-def to_ops(hist, versioned, bottom=False, vmap=None):
+def to_ops(hist, versioned, bottom=False, vmap=None, txn=False, par=False):
     """Model actions -> driver operations. Every written value gets a unique suffix so that a
     read reply identifies exactly one write. bottom=True lets L0 move to the engine's natural base
     level (the bottom level for small data) instead of forcing L1."""
@@ -54,11 +56,32 @@ def to_ops(hist, versioned, bottom=False, vmap=None):
             if versioned:
                 ver = vmap[h["ver"] - 1] if vmap else h["ver"]
                 ops.append({"op": "SetV" if o == "Set" else "DelV", "k": k, "ver": ver, "v": h["v"]})
+            elif txn:
+                ops.append({"op": "TSet", "k": k, "v": h["v"]} if o == "Set" else {"op": "TDel", "k": k})
             else:
                 ops.append({"op": o, "k": k, "v": h["v"]} if o == "Set" else {"op": "Del", "k": k})
         elif o in opmap:
             ops.append(dict(opmap[o]))
         # L0ToL0 is not drivable (needs tables older than 10 s): skipped, see DESIGN.md
+    if par:  # runs of plain Sets on distinct keys are issued concurrently (one coalesced commit batch)
+        out, run = [], []
+        def flush_run():
+            if len(run) >= 2:
+                out.append({"op": "ParSet", "w": [{"k": x["k"], "v": x["v"]} for x in run]})
+            else:
+                out.extend(run)
+            run.clear()
+        for op in ops:
+            if op["op"] == "Set" and op["k"] not in {x["k"] for x in run}:
+                run.append(op)
+            else:
+                flush_run()
+                if op["op"] == "Set":
+                    run.append(op)
+                else:
+                    out.append(op)
+        flush_run()
+        ops = out
     return ops
 
 
@@ -228,7 +251,11 @@ def run(ctx):
         for ci, c in enumerate(reps):
             bottom = (i + ci + ctx.seed) % 2 == 0
             vmap = VMAPS[(i + ctx.seed) % len(VMAPS)] if versioned else None
-            s = {"id": len(scheds), "cfg": c, "readall": True, "ops": to_ops(h, versioned, bottom=bottom, vmap=vmap), "bottom": bottom}
+            # C12/C08: a third of the schedules go through the transactional API (commit versions must
+            # keep increasing across reopen), another third issues independent writes concurrently
+            mode = (i + ci + 2 * ctx.seed) % 3 if pid in ("C12", "C08") and not versioned else 0
+            s = {"id": len(scheds), "cfg": c, "readall": True, "bottom": bottom, "txn": mode == 1,
+                 "ops": to_ops(h, versioned, bottom=bottom, vmap=vmap, txn=mode == 1, par=mode == 2)}
             if versioned:
                 # probe every written version, its neighbours, and the plain API's version
                 probes = sorted({p for v in vmap for p in (v - 1, v, v + 1) if p > 0} | {1000000})
